@@ -219,8 +219,17 @@ def run_scenario(arg):
         snap0 = dsfs.snapshot(pristine)
         out.update(refs=refs, nold=len(old_vals[0][1]), nnew=len(new_vals[0][1]), files0=sorted(snap0))
 
-        def one(k, variant, keep_data):
+        def one(k, variant, keep_data, after_failed=None):
             dsfs.restore(pristine, work)
+            if after_failed is not None:
+                # fault sequence: an append that failed in call after_failed[0] came first (its debris - unreferenced part
+                # files, directories - is still there); the append judged here is the retry
+                rec0 = dsfs.Recorder(work, fail_at=after_failed[0], variant=after_failed[1])
+                with rec0:
+                    try:
+                        do_write(work, sc, sc["frame1"], sc["offsets1"], True, rec0)
+                    except BaseException:        # noqa
+                        pass
             rec = dsfs.Recorder(work, fail_at=k, variant=variant, keep_data=keep_data)
             raised = None
             with rec:
@@ -229,7 +238,8 @@ def run_scenario(arg):
                 except BaseException as e:       # noqa
                     raised = "%s: %s" % (type(e).__name__, str(e)[:200])
             r = {"k": k, "variant": variant, "raised": raised, "fired": rec.fired, "ncalls": rec.n,
-                 "trace": rec.trace, "kinds": rec.kinds, "bypassed": rec.bypassed, "fired_at": rec.fired_at}
+                 "trace": rec.trace, "kinds": rec.kinds, "bypassed": rec.bypassed, "fired_at": rec.fired_at,
+                 "after_failed": list(after_failed) if after_failed else None}
             def reader():
                 rr = dsfs.Recorder(work)
                 with rr:
@@ -262,7 +272,7 @@ def run_scenario(arg):
             return r
 
         if only is not None:                      # replay of one run
-            out["runs"].append(one(only[0], only[1], False))
+            out["runs"].append(one(only[0], only[1], False, only[2] if len(only) > 2 else None))
             return out
         b = one(None, "pre", True)
         out["runs"].append(b)
@@ -278,6 +288,14 @@ def run_scenario(arg):
             if hangs >= 3:          # every one of them is reported; do not spend the budget waiting for more of the same
                 out["cut_short_after_hangs"] = k
                 break
+        # fault sequences: a failed append (at about 1/4, 1/2, 3/4 of the calls before _metadata) followed by a retry -
+        # fault-free, and failing once more at the same call
+        mdi = dsfs.md_open_index(b["trace"])
+        nb = sum(1 for c in b["trace"][:mdi] if c[0] in ("mkdir", "openw", "write", "close")) if mdi else n
+        for k0 in sorted(set(max(1, nb * j // 4) for j in (1, 2, 3))):
+            v0 = "short" if kinds[k0 - 1] == "write" else VARIANTS[kinds[k0 - 1]][-1]
+            out["runs"].append(one(None, "pre", False, (k0, v0)))
+            out["runs"].append(one(k0, v0, False, (k0, v0)))
     except BaseException:                         # noqa
         out["error"] = traceback.format_exc()[-3000:]
     finally:
@@ -337,7 +355,8 @@ def run(ctx):
     ctx.rule = ("scenario = hive dataset (0..2 partition columns, 1..3 or 10..13 row groups, 0..2 earlier appends, codec/stats varied) + an append of 1..4 new "
                 "row groups; for EVERY k = 1..N (N = number of mkdir/open-for-write/write/close calls the fault-free append issues) and every variant "
                 "(fail before the call has an effect / after it / short write) the real append runs with the k-th call failing, then a fresh open; "
-                "a case is (scenario, k, variant); the fault-free run of a scenario is the only trivial one")
+                "plus fault SEQUENCES: a failed append (at 1/4, 1/2, 3/4 of the calls) followed by a retry, fault-free and failing again at the same call; "
+                "a case is (scenario, k, variant[, preceding failure]); the fault-free run of a scenario is the only trivial one")
     scs = [gen_scenario(rng, i) for i in range(nsc)]
     # corpus of past disagreements first
     cdir = os.path.join(C.VERIF, "corpus", "C19")
@@ -393,9 +412,13 @@ def run(ctx):
         ctx.count("calls_per_append", (res["runs"][0]["ncalls"] // 20) * 20)
         refs = res["refs"]
         for r in res["runs"]:
-            case = {"scenario": sc, "k": r["k"], "variant": r["variant"]}
-            short = {"scenario": sc["id"], "k": r["k"], "variant": r["variant"], "fired": r["fired"], "raised": r["raised"]}
-            ctx.case({"sc": sc["id"], "k": r["k"], "v": r["variant"], "f": sc["frame1"], "p": sc["partition_on"]}, trivial=r["k"] is None)
+            case = {"scenario": sc, "k": r["k"], "variant": r["variant"], "after_failed": r.get("after_failed")}
+            short = {"scenario": sc["id"], "k": r["k"], "variant": r["variant"], "fired": r["fired"], "raised": r["raised"],
+                     "after_failed": r.get("after_failed")}
+            ctx.case({"sc": sc["id"], "k": r["k"], "v": r["variant"], "f": sc["frame1"], "p": sc["partition_on"], "af": r.get("after_failed")},
+                     trivial=(r["k"] is None and not r.get("after_failed")))
+            if r.get("after_failed"):
+                ctx.count("fault_sequence", "failed append, then %s" % ("fault-free retry" if r["k"] is None else "retry failing again"))
             if r["k"] is not None:
                 ctx.count("fault_kind", "%s/%s" % (r["fired"][1] if r["fired"] else "not-reached", r["variant"]))
             phase, problems = judge(sc, res, r)
@@ -470,7 +493,7 @@ def replay(rep):
     sc = case["scenario"]
     tmp = tempfile.mkdtemp(prefix="verif-C19-replay-", dir="/tmp")
     try:
-        res = run_scenario((sc, tmp, "quick", (case["k"], case["variant"])))
+        res = run_scenario((sc, tmp, "quick", (case["k"], case["variant"], case.get("after_failed"))))
         if res["error"]:
             print(res["error"])
             return 1
@@ -481,6 +504,8 @@ def replay(rep):
         phase, problems = judge(sc, res, r)
         print("scenario: partition_on=%s, %d old rows in %d files, append of %d rows in %d row groups" % (
             sc["partition_on"], res["nold"], len(res["refs"]), res["nnew"], sc["new_parts"]))
+        if r.get("after_failed"):
+            print("first an append failing in call %s (%s); judged is the retry:" % tuple(r["after_failed"]))
         print("fault: k=%s variant=%s fired=%s" % (r["k"], r["variant"], r["fired"]))
         print("append: %s" % ("raised " + r["raised"] if r["raised"] else "returned normally"))
         print("fresh open reads: %s %s   (phase: %s)" % (r["read"], r.get("read_detail", ""), phase))
